@@ -21,6 +21,9 @@ fn main() {
     let shard: usize = a.get(2).and_then(|s| s.parse().ok()).unwrap_or(0);
     let nshards: usize = a.get(3).and_then(|s| s.parse().ok()).unwrap_or(1).max(1);
     let thorough = a.get(4).map(|s| s == "thorough").unwrap_or(false);
+    // optional: which parts to run ("bp", "fsst", default both) and a forced FSST kind
+    let parts = a.get(5).cloned().unwrap_or_else(|| "bp,fsst".to_string());
+    let forced_kind = a.get(6).cloned();
     let mut fails = 0u32;
     let mut bp_chunks = 0u32;
     let mut bp_pairs = 0u32;
@@ -30,7 +33,7 @@ fn main() {
 
     // ---- bit-packing: this shard's slice of ALL (type, width) pairs ----
     let mut k = 0usize;
-    for ty in 0..4 {
+    for ty in 0..(if parts.contains("bp") { 4 } else { 0 }) {
         for width in 0..=TY_BITS[ty] {
             k += 1;
             if (k - 1) % nshards != shard {
@@ -59,10 +62,13 @@ fn main() {
     }
 
     // ---- FSST: one kind per shard (rotated by seed) above the threshold + small copy-path arrays ----
-    let n_big = if thorough { 3 } else { 1 };
+    let n_big = if !parts.contains("fsst") { 0 } else if thorough { 3 } else { 1 };
     for j in 0..n_big {
         let kidx = (shard + j * nshards + seed as usize) % FSST_KINDS.len();
-        let kind = FSST_KINDS[kidx];
+        let kind = match &forced_kind {
+            Some(k) => *FSST_KINDS.iter().find(|x| **x == k.as_str()).unwrap_or(&FSST_KINDS[kidx]),
+            None => FSST_KINDS[kidx],
+        };
         let mut rng = Rng::for_case(seed, (1u64 << 40) + (shard * 97 + j) as u64);
         let case = gen_fsst(&mut rng, kind, 0);
         fsst_bytes += case.strings.iter().map(|s| s.len()).sum::<usize>();
